@@ -30,7 +30,7 @@ func init() {
 	Register(&PropDef{
 		ID:    "C20",
 		Title: "No-Response suppression follows RFC 7967 for every value and code",
-		Rule: "run index i < 262144 enumerates (transport/type, option value 0..255 = every value the one-byte option can carry, response code 0..255) completely; the options that accompany No-Response (none, lower-numbered, unknown elective ones numbered above 258, both, a known option of illegal length that the decoder skips) rotate over the cells; each run sends the request (and, on datagram transports, a network duplicate of it) to a real connection whose handler sets the response in one of the three ways the response writer has - SetResponse(code), SetMessage(a message of that code), Message().SetCode(code) - ; only the first can refuse, all three are judged on the wire; scenario S-NORESP/blockwise: the block-wise layer's own 4.08 (a final block of an upload nobody started) and a two-block upload answered by the handler, with No-Response on every block; " +
+		Rule: "run index i < 262144 enumerates (transport/type, option value 0..255 = every value the one-byte option can carry, response code 0..255) completely; the options that accompany No-Response (none, lower-numbered, unknown elective ones numbered above 258, both, a known option of illegal length that the decoder skips) rotate over the cells; each run sends the request (and, on datagram transports, a network duplicate of it) to a real connection whose handler sets the response in one of the three ways the response writer has - SetResponse(code), SetMessage(a message of that code), Message().SetCode(code) - ; only the first can refuse, all three are judged on the wire; scenario S-NORESP/blockwise: the block-wise layer's own 4.08 (a final block of an upload nobody started) a two-block upload answered by the handler, with No-Response on every block, and a download whose request for block 1 carries the option; in a fifth of the SetResponse cells the handler goes on to add an option through Message() after the refusal; " +
 			"non-trivial = the option suppresses at least one class (value has bit 2, 8 or 16); distinct = distinct (transport, value, code) log hash",
 		Scenarios: []Scenario{{Name: "S-NORESP", Weight: 6, Run: c20Run}, {Name: "S-NORESP/blockwise", Weight: 1, Run: c20BlockwiseRun}},
 		Quick:     c20Table + 70000,
@@ -43,7 +43,7 @@ func init() {
 			// draws of c20Run: scenario, transport/type, value, code, way of setting
 			return []uint32{0, uint32(idx/65536) % 4, uint32((idx / 256) % 256), uint32(idx % 256), uint32(idx / (4 * 65536))}, true
 		},
-		Require: []string{"handler.retriedAfterRefusal", "how.SetResponse", "how.SetMessage", "how.Message()", "blockwise.incomplete.suppressed", "blockwise.incomplete.sent", "blockwise.upload.suppressed", "blockwise.upload.answered", "company.0", "company.1", "company.2", "company.3", "company.4"},
+		Require: []string{"handler.retriedAfterRefusal", "how.SetResponse", "how.SetMessage", "how.Message()", "blockwise.incomplete.suppressed", "blockwise.incomplete.sent", "blockwise.upload.suppressed", "blockwise.upload.answered", "company.0", "company.1", "company.2", "company.3", "company.4", "handler.decoratedARefusedResponse", "blockwise.download.suppressed", "blockwise.download.answered"},
 		Assume: []string{
 			"specification function written from RFC 7967: class = code>>5; suppressed iff (class 2 and value&2) or (class 4 and value&8) or (class 5 and value&16)",
 			"nothing here depends on the schedule; the property is claimed for the wire-level consequence, which only an endpoint in a (simulated) network shows",
@@ -75,16 +75,23 @@ func c20Run(e *Env) {
 	// in a third of the cells a handler whose response was refused tries again with 5.00 (what an application does
 	// when its first answer "fails"): the second attempt is judged on its own, and the response still belongs to the request
 	retry := (int(v)+int(code))%3 == 0 && how == 0
+	// in a fifth of the cells a handler whose response was refused goes on to decorate it through Message() - an
+	// ETag, Max-Age: the style the comment of SetResponse recommends for anything beyond code and body
+	decorate := !retry && (int(v)+int(code))%5 == 1 && how == 0
 	const retryCode = byte(0xa0)
 	retrySuppressed := v&16 != 0
 	var refusals, handlerRuns, retries, retryRefusals int
-	handle := func(set func(code codes.Code) error) {
+	handle := func(set func(code codes.Code) error, addOption func()) {
 		err := set(codes.Code(code))
 		var err2 error
 		tried := false
 		if err != nil && retry {
 			tried = true
 			err2 = set(codes.Code(retryCode))
+		}
+		if err != nil && decorate {
+			e.Probe("handler.decoratedARefusedResponse")
+			addOption()
 		}
 		e.mu.Lock()
 		handlerRuns++
@@ -124,7 +131,7 @@ func c20Run(e *Env) {
 					return nil
 				}
 				return rw.SetResponse(c, message.TextPlain, bytes.NewReader(body))
-			})
+			}, func() { rw.Message().SetOptionUint32(message.MaxAge, 60) })
 		}
 		w = NewCWorld(e, CWorldCfg{Transport: tr, UDP: cfg})
 	} else {
@@ -147,7 +154,7 @@ func c20Run(e *Env) {
 					return nil
 				}
 				return rw.SetResponse(c, message.TextPlain, bytes.NewReader(body))
-			})
+			}, func() { rw.Message().SetOptionUint32(message.MaxAge, 60) })
 		}))
 		w = NewCWorld(e, CWorldCfg{Transport: tr, TCPOpts: []tcp.Option{options.WithMux(r), options.WithCloseSocket()}})
 	}
